@@ -117,7 +117,8 @@ def build_shim(bdir, shim, defines):
 
 
 # declared-only externals that may be called by extracted code without a model (harmless or handled elsewhere)
-HARMLESS_DECLS = {'__cxa_begin_catch', '__cxa_end_catch', '__gxx_personality_v0', '__cxa_guard_acquire', '__cxa_guard_release',
+HARMLESS_DECLS = {'_Znwm', '_Znam', '_ZdlPv', '_ZdaPv', '_ZdlPvm', '_ZdaPvm',  # modelled in tools/ir_prelude.c
+                  '__cxa_begin_catch', '__cxa_end_catch', '__gxx_personality_v0', '__cxa_guard_acquire', '__cxa_guard_release',
                   '__cxa_atexit'}
 
 
@@ -251,7 +252,7 @@ class Runner:
 
     def cbmc_cmd(self, job, gb):
         cmd = ['cbmc', gb, '--json-ui']
-        if job.object_bits: cmd += ['--object-bits', str(job.object_bits)]
+        if job.object_bits: cmd += ['--object-bits', str(job.object_bits)]   # dfcc's object sets have 2^bits entries: keep small
         if job.backend == 'cvc5': cmd += ['--cvc5']
         elif job.backend == 'z3': cmd += ['--z3']
         elif job.backend == 'cadical': cmd += ['--sat-solver', 'cadical']
@@ -376,9 +377,12 @@ def native_replay(rep, ndir):
         p = os.path.join(VERIF, 'contracts', inc)
         if os.path.exists(p):
             names |= set(re.findall(r'\bINPUT(?:_ARR)?\s*\(\s*[^,]+,\s*(in_[A-Za-z0-9_]+)', open(p).read()))
-    with open(os.path.join(ndir, 'replay_inputs.h'), 'w') as f:
-        for n in sorted(names):
-            f.write('#define RP_INIT_%s %s\n' % (n, rep['inputs'].get(n, '{0}')))
+    names |= set(rep['inputs'].keys())
+    def write_inputs():
+        with open(os.path.join(ndir, 'replay_inputs.h'), 'w') as f:
+            for n in sorted(names):
+                f.write('#define RP_INIT_%s %s\n' % (n, rep['inputs'].get(n, '{0}')))
+    write_inputs()
     # generated header: need gen.h of the shim -> rebuild shim extraction in ndir (cheap)
     ll = os.path.join(ndir, 'shim.ll')
     rc, o, e = sh(['clang++'] + CLANG_FLAGS + ['-D' + x for x in rep['shim_defines']] + [shim_src, '-o', ll], timeout=600)
@@ -399,8 +403,12 @@ def native_replay(rep, ndir):
     defs = ['-D' + x for x in rep['defines']]
     obj_c = os.path.join(ndir, 'contract.o'); obj_s = os.path.join(ndir, 'shim.o'); obj_r = os.path.join(ndir, 'rt.o')
     exe = os.path.join(ndir, 'replay')
-    rc, o, e = sh(['gcc', '-std=gnu11', '-g', '-O0', '-fexceptions', '-w', '-DNATIVE', '-DHARNESS=' + rep['harness'], '-I', ndir, '-I', TOOLS, '-I', cdir] + defs + san +
-                  ['-c', os.path.join(cdir, rep['contract']), '-o', obj_c], timeout=600, mem=False)
+    for _ in range(8):
+        rc, o, e = sh(['gcc', '-std=gnu11', '-g', '-O0', '-fexceptions', '-w', '-DNATIVE', '-DHARNESS=' + rep['harness'], '-I', ndir, '-I', TOOLS, '-I', cdir] + defs + san +
+                      ['-c', os.path.join(cdir, rep['contract']), '-o', obj_c], timeout=600, mem=False)
+        missing = set(re.findall(r'RP_INIT_(in_[A-Za-z0-9_]+)[^A-Za-z0-9_]+undeclared', e))
+        if rc == 0 or not (missing - names): break
+        names |= missing; write_inputs()   # inputs the verifier left unconstrained (token-pasted names): zero
     if rc != 0: return 2, 'native replay: gcc failed on contract: ' + e[-3000:]
     rc, o, e = sh(['g++', '-std=c++17', '-g', '-O1', '-w', '-fno-access-control', '-DTLX_VERIF_NATIVE', '-I', REPO, '-I', os.path.join(VERIF, 'shims')] +
                   ['-D' + x for x in rep['shim_defines']] + san + ['-c', shim_src, '-o', obj_s], timeout=900, mem=False)
@@ -409,6 +417,7 @@ def native_replay(rep, ndir):
     if rc != 0: return 2, 'native replay: g++ failed on runtime: ' + e[-3000:]
     rc, o, e = sh(['g++', obj_c, obj_s, obj_r, '-o', exe, '-lpthread'] + san, timeout=600, mem=False)
     if rc != 0: return 2, 'native replay: link failed: ' + e[-3000:]
+    os.environ['ASAN_OPTIONS'] = 'detect_leaks=0'
     rc, o, e = sh([exe], timeout=60, mem=False)
     return rc, (o + e)
 
